@@ -227,9 +227,10 @@ def gates(m, tier):
             out.append('field kind %s rewritten only %d times (<100)'
                        % (k, m.counters.get('inputs:field:' + k, 0)))
     fr = m.sets.get('funcs_reached', set())
-    for f in ('decode.py:field_array', 'decode.py:field_table',
-              'header.py:ContentHeader._get_flags',
-              'decode.py:embedded_value'):
+    for f in common.anchored(('decode.py:field_array',
+                              'decode.py:field_table',
+                              'header.py:ContentHeader._get_flags',
+                              'decode.py:embedded_value')):
         if f not in fr:
             out.append('loop function %s never entered' % f)
     for k in ('byte', 'inner-truncation', 'random', 'deep-method',
